@@ -161,12 +161,26 @@ impl Prop for C11 {
             let n = callset.recs.len();
             let mut perm: Vec<usize> = (0..n).collect();
             rng.shuffle(&mut perm);
+            let split = rng.range(0, n);
+            let container = {
+                    let c = *rng.pick(&[Container::Vcf, Container::VcfGz, Container::Bcf]);
+                    // The BCF encoding of the generated call sets (noodles' writer) is trusted for
+                    // diploid call sets only (DESIGN §10). Records with a call of another ploidy - here
+                    // always in an unselected column - go through the VCF containers, where the column
+                    // is text that the reader never has to interpret.
+                    let diploid = |g: &String| g.bytes().filter(|b| *b == b'/' || *b == b'|').count() == 1;
+                    if c == Container::Bcf && !callset.recs.iter().all(|r| r.gts.iter().all(diploid)) {
+                        Container::VcfGz
+                    } else {
+                        c
+                    }
+                };
             return Case::L2 {
-                split: rng.range(0, n),
+                split,
                 perm,
                 callset,
                 cfg,
-                container: *rng.pick(&[Container::Vcf, Container::VcfGz, Container::Bcf]),
+                container,
             };
         }
         let (mut callset, cfg) = gen::gen_callset(&mut rng, &p);
@@ -591,7 +605,11 @@ fn run_l2(callset: &CallSet, cfg: &Config, split: usize, perm: &[usize], contain
             out.violate(
                 "l2_exit_differs",
                 "C11 L2 exit status differs between whole, parts and permutation".into(),
-                format!("{:?}", results.iter().map(|r| r.status_class()).collect::<Vec<_>>()),
+                format!(
+                    "{:?} stderr of the failing runs: {:?}",
+                    results.iter().map(|r| r.status_class()).collect::<Vec<_>>(),
+                    results.iter().filter(|r| !r.ok()).map(|r| r.stderr_text().chars().take(300).collect::<String>()).collect::<Vec<_>>()
+                ),
             );
         } else {
             out.count(if ok.iter().any(|&x| x) { "l2.record_rejected" } else { "l2.config_rejected" }, 1);
